@@ -818,6 +818,43 @@ func runC12(c *runCtx) error {
 		c12Run(e, s, randPrior(), polls, 0, 0, []string{"a", "", "kXy"})
 	}
 
+	// part C2: long statements (more pairs / keys than one batch of 32), with and without an
+	// evaluation failure at an early, a late (beyond the first 32) and the last position --
+	// all-or-nothing and exactly-once must not depend on the length of the statement
+	for _, n := range []int{31, 32, 33, 40, 70} {
+		for _, failAt := range []int{-1, 0, n / 2, n - 1} {
+			for _, remove := range []bool{false, true} {
+				s := c12Stmt{remove: remove}
+				for i := 0; i < n; i++ {
+					k := c12KeyPool[i%len(c12KeyPool)]
+					v := c12ValPool[(i*3)%len(c12ValPool)]
+					for k.fails {
+						k = c12KeyPool[r.intn(len(c12KeyPool))]
+					}
+					for v.fails {
+						v = c12ValPool[r.intn(len(c12ValPool))]
+					}
+					if i == failAt {
+						if remove {
+							for !k.fails {
+								k = c12KeyPool[r.intn(len(c12KeyPool))]
+							}
+						} else {
+							for !v.fails {
+								v = c12ValPool[r.intn(len(c12ValPool))]
+							}
+						}
+					}
+					s.keys = append(s.keys, k)
+					if !remove {
+						s.vals = append(s.vals, v)
+					}
+				}
+				c12Run(e, s, randPrior(), []int{r.intn(2), r.intn(2)}, 0, 0, []string{"a", "", "kXy"})
+			}
+		}
+	}
+
 	// part D: statement sequences against the model map (each statement is a case whose prior
 	// state is the store left by the previous ones; the direct verdict compares the store to
 	// the generator's model map after every statement)
